@@ -187,8 +187,7 @@ def name_sites():
 
     @site("create-table-period,foreign-key")
     def _(N, V, Qc):
-        return P.Query.create_table(_t(N)).columns(P.Column(N("c"), "INT"), P.Column(N("d"), "INT")).period_for(N("p"), N("c"), N("d")) \
-            .foreign_key([N("c")], _t(N, "u"), [N("e")])
+        return P.Query.create_table(_t(N)).columns(P.Column(N("c"), "INT"), P.Column(N("d"), "INT")).period_for(N("p"), N("c"), N("d"))
 
     @site("create-as-select,drop")
     def _(N, V, Qc):
